@@ -858,6 +858,202 @@ theorem queued_con_one_nack_on_failure {s : Sess} (h : Unauth s) (hl : Ledger0 s
     · rw [e4] at hend; simp at hend
   · exact e2
 
+/-- frame of the accepting flush: what `queued_delivered_in_order_once_on_success_partial` does not say -/
+theorem flush_accepting_frame (fuel : Nat) (c : Ctx) (hp : c.s.proto = .dtls)
+    (he : c.s.est = true) (hs : c.s.state = .established) (hd : c.s.dtlsEvent = none)
+    (ho : ∀ n, c.orc.drop n = [] ∨ ∃ t, c.orc.drop n = Orc.snd .ok :: t) (hlen : c.s.delayq.length ≤ c.orc.length) :
+    (Ctx.flushLoop fuel c).s.dtlsEvent = none ∧ (Ctx.flushLoop fuel c).s.appRef = c.s.appRef ∧
+      (Ctx.flushLoop fuel c).s.typ = c.s.typ ∧ (Ctx.flushLoop fuel c).s.freed = c.s.freed ∧
+      (Ctx.flushLoop fuel c).s.state = .established := by
+  induction fuel generalizing c with
+  | zero => exact ⟨hd, rfl, rfl, rfl, hs⟩
+  | succ n ih =>
+    unfold Ctx.flushLoop
+    cases hq : c.s.delayq with
+    | nil => exact ⟨hd, rfl, rfl, rfl, hs⟩
+    | cons q rest =>
+      simp only [hs, ne_eq, not_true_eq_false, if_false]
+      have horc : ∃ t, c.orc = Orc.snd .ok :: t := by
+        rcases ho 0 with h | h
+        · simp at h; rw [hq, h] at hlen; simp at hlen
+        · simpa using h
+      obtain ⟨t, ht⟩ := horc
+      by_cases hblock : (q.con && decide (c.s.proto ≠ Proto.tls) && decide (c.s.conActive ≥ NSTART)) = true
+      · simp only [hblock, if_true]
+        exact ⟨hd, trivial, trivial, trivial, hs⟩
+      · simp only [hblock, if_false]
+        have hone : (c.flushOne q rest).s.delayq = rest ∧ (c.flushOne q rest).ret = 1 ∧ (c.flushOne q rest).orc = t ∧
+            (c.flushOne q rest).s.proto = .dtls ∧ (c.flushOne q rest).s.est = true ∧
+            (c.flushOne q rest).s.state = .established ∧ (c.flushOne q rest).s.dtlsEvent = none ∧
+            (c.flushOne q rest).s.appRef = c.s.appRef ∧ (c.flushOne q rest).s.typ = c.s.typ ∧
+            (c.flushOne q rest).s.freed = c.s.freed := by
+          unfold Ctx.flushOne Ctx.sessionSendPdu Ctx.dtlsSend Ctx.dtlsSendCore Ctx.sndResult Ctx.popSnd Ctx.sendTail
+          simp [Ctx.upd, Ctx.emit, Ctx.setRet, hp, he, hs, hd, ht, QMsg.snOf]
+        obtain ⟨o2, o3, o4, o5, o6, o7, o8, o9, o10, o11⟩ := hone
+        have hlt : ¬ ((c.flushOne q rest).ret < 0) := by rw [o3]; omega
+        have hnt : ¬ ((c.flushOne q rest).s.proto = Proto.tls) := by rw [o5]; decide
+        simp only [hnt, hlt, if_false, Bool.false_eq_true]
+        have hrec := ih (c.flushOne q rest) o5 o6 o7 o8
+          (by intro k; have := ho (k + 1); rw [ht] at this; simpa [o4] using this)
+          (by rw [o2, o4]; rw [hq, ht] at hlen; simpa using hlen)
+        rw [hrec.1, hrec.2.1, hrec.2.2.1, hrec.2.2.2.1, hrec.2.2.2.2, o9, o10, o11]
+        exact ⟨rfl, rfl, rfl, rfl, rfl⟩
+
+/-- coap_dtls_receive's handshake branch when the oracle reports success and then accepts the writes -/
+theorem recvHs_ok (c : Ctx) (snds : List Orc) (horc : c.orc = .hs .ok :: snds) (hp : c.s.proto = .dtls)
+    (hst : c.s.state = .handshake) (hd : c.s.dtlsEvent = none)
+    (ho : ∀ n, snds.drop n = [] ∨ ∃ t, snds.drop n = Orc.snd .ok :: t) (hlen : c.s.delayq.length ≤ snds.length) :
+    c.recvHs.out = c.out ++ Out.hsOkMark :: (sentPrefix c.s.conActive c.s.delayq).map (fun m => Out.tx true (m.view false) (some m.sn)) ∧
+    c.recvHs.s.delayq = c.s.delayq.drop (sentPrefix c.s.conActive c.s.delayq).length ∧
+    c.recvHs.s.state = .established ∧ c.recvHs.s.appRef = c.s.appRef ∧ c.recvHs.s.typ = c.s.typ ∧
+    c.recvHs.s.freed = c.s.freed := by
+  have hD : c.doHandshake.ret = 1 ∧ c.doHandshake.orc = snds ∧ c.doHandshake.out = c.out ++ [Out.hsOkMark] ∧
+      c.doHandshake.s.proto = .dtls ∧ c.doHandshake.s.est = true ∧ c.doHandshake.s.state = .handshake ∧
+      c.doHandshake.s.dtlsEvent = none ∧ c.doHandshake.s.delayq = c.s.delayq ∧ c.doHandshake.s.conActive = c.s.conActive ∧
+      c.doHandshake.s.typ = c.s.typ ∧ c.doHandshake.s.appRef = c.s.appRef ∧ c.doHandshake.s.freed = c.s.freed := by
+    unfold Ctx.doHandshake Ctx.popHs
+    simp [horc, Ctx.upd, Ctx.emit, Ctx.setRet, hp, hst, hd]
+  unfold Ctx.recvHs Ctx.hsThenConnect
+  simp only
+  generalize c.doHandshake = D at hD ⊢
+  obtain ⟨d1, d2, d3, d4, d5, d6, d7, d8, d9, d10, d11, d12⟩ := hD
+  have hF : D.sessionConnected = Ctx.flushLoop (D.s.delayq.length + 1) (D.upd fun s => { s with state := .established }) := by
+    unfold Ctx.sessionConnected
+    simp [d6, Ctx.upd]
+  have hE : (D.upd fun s => { s with state := .established }).orc = snds ∧
+      (D.upd fun s => { s with state := .established }).out = c.out ++ [Out.hsOkMark] ∧
+      (D.upd fun s => { s with state := .established }).s.proto = .dtls ∧
+      (D.upd fun s => { s with state := .established }).s.est = true ∧
+      (D.upd fun s => { s with state := .established }).s.state = .established ∧
+      (D.upd fun s => { s with state := .established }).s.dtlsEvent = none ∧
+      (D.upd fun s => { s with state := .established }).s.delayq = c.s.delayq ∧
+      (D.upd fun s => { s with state := .established }).s.conActive = c.s.conActive ∧
+      (D.upd fun s => { s with state := .established }).s.typ = c.s.typ ∧
+      (D.upd fun s => { s with state := .established }).s.appRef = c.s.appRef ∧
+      (D.upd fun s => { s with state := .established }).s.freed = c.s.freed :=
+    ⟨d2, d3, d4, d5, rfl, d7, d8, d9, d10, d11, d12⟩
+  rw [d8] at hF
+  generalize (D.upd fun s => { s with state := .established }) = E at hF hE
+  obtain ⟨e1, e2, e3, e4, e5, e6, e7, e8, e9, e10, e11⟩ := hE
+  have p1 := queued_delivered_in_order_once_on_success_partial (c.s.delayq.length + 1) E e3 e4 e5 e6
+    (by rw [e1]; exact ho) (by rw [e1, e7]; exact hlen) (by rw [e7]; omega)
+  have p2 := flush_accepting_frame (c.s.delayq.length + 1) E e3 e4 e5 e6 (by rw [e1]; exact ho) (by rw [e1, e7]; exact hlen)
+  rw [← hF] at p1 p2
+  generalize D.sessionConnected = F at p1 p2
+  simp only [d1, if_true, Ctx.setFlag, Ctx.receiveTail, p2.1]
+  rw [p1.1, p1.2, e2, e7, e8, p2.2.1, p2.2.2.1, p2.2.2.2.1, p2.2.2.2.2, e9, e10, e11]
+  simp
+
+/-- the datagram that completes the handshake, on a DTLS session in HANDSHAKE state -/
+theorem establishing_dgram (s : Sess) (snds : List Orc) (hp : s.proto = .dtls) (hty : s.typ ≠ .hello) (htls : s.tls = true)
+    (hest : s.est = false) (hst : s.state = .handshake) (hfr : s.freed = false) (hap : s.appRef = true)
+    (ho : ∀ n, snds.drop n = [] ∨ ∃ t, snds.drop n = Orc.snd .ok :: t) (hlen : s.delayq.length ≤ snds.length) :
+    (s.step .dgram (.hs .ok :: snds)).2 =
+      Out.hsOkMark :: (sentPrefix s.conActive s.delayq).map (fun m => Out.tx true (m.view false) (some m.sn)) ∧
+    (s.step .dgram (.hs .ok :: snds)).1.delayq = s.delayq.drop (sentPrefix s.conActive s.delayq).length ∧
+    (s.step .dgram (.hs .ok :: snds)).1.state = .established := by
+  have hr := recvHs_ok (({ s := s, orc := .hs .ok :: snds } : Ctx).upd fun s => { s with dtlsEvent := none }) snds rfl hp hst rfl
+    ho hlen
+  have hstep : s.stepCtx .dgram (.hs .ok :: snds) =
+      ((({ s := s, orc := .hs .ok :: snds } : Ctx).upd fun s => { s with dtlsEvent := none }).recvHs).maybeFree := by
+    unfold Sess.stepCtx Ctx.handleDgramForProto Ctx.dtlsReceive
+    simp [hfr, hp, hty, htls, hest, Ctx.upd]
+  unfold Sess.step
+  simp only [hstep]
+  generalize (({ s := s, orc := .hs .ok :: snds } : Ctx).upd fun s => { s with dtlsEvent := none }).recvHs = R at hr
+  obtain ⟨r1, r2, r3, r4, r5, r6⟩ := hr
+  have hm : R.maybeFree = R := by
+    unfold Ctx.maybeFree
+    have : R.s.appRef = true := by rw [r4]; exact hap
+    simp [this]
+  rw [hm, r1, r2, r3]
+  simp [Ctx.upd]
+
+/-- (b) IN ORDER, ONCE, trace level — every history up to and including the datagram that completes the handshake.  Take ANY
+history `pre` of a session that starts unauthenticated in which the TLS library has not reported success (any events, any
+answers), ending on a DTLS session in HANDSHAKE state that the application still holds; then the datagram arrives with which
+the TLS library reports the completed handshake and accepts the writes that follow.  In the WHOLE trace:
+  * nothing was written before the oracle's success; the delay queue at that point holds the submissions in submission order
+    (serials strictly increasing);
+  * after the mark exactly `sentPrefix` of the queue is handed to the TLS layer (`tx true`), in queue = submission order, and
+    nothing else is output; the rest of the queue stays queued, in order; the session is ESTABLISHED;
+  * every message of `sentPrefix` has been written exactly ONCE in the whole history, no message more than once;
+  * nothing that was queued has been NACKed, and no message at all has been reported twice.
+NOT covered (kept as `queued_delivered_in_order_once_on_success_partial`, step level): the later passes of
+coap_session_connected that send the rest of the queue when the active Confirmable is acknowledged, retransmissions (a
+retransmitted PDU carries the same serial), and a write the TLS library refuses — coap_session_connected stops draining
+(`if (bytes_written < 0) break;`), the known finding `drain_break_strands_delayed` of C06. -/
+theorem queued_first_flush_in_order_once_on_success {s : Sess} (h : Unauth s) (hl : Ledger0 s) (pre : List (Ev × List Orc))
+    (hnm : Out.hsOkMark ∉ (s.run pre).2) (snds : List Orc)
+    (hp : (s.run pre).1.proto = .dtls) (hty : (s.run pre).1.typ ≠ .hello) (htls : (s.run pre).1.tls = true)
+    (hst : (s.run pre).1.state = .handshake) (hfr : (s.run pre).1.freed = false) (hap : (s.run pre).1.appRef = true)
+    (ho : ∀ n, snds.drop n = [] ∨ ∃ t, snds.drop n = Orc.snd .ok :: t) (hlen : (s.run pre).1.delayq.length ≤ snds.length) :
+    (∀ o ∈ (s.run pre).2, ∀ tls v sn, o ≠ Out.tx tls v sn) ∧
+    ((s.run pre).1.delayq.map (·.sn)).Pairwise (· < ·) ∧
+    (s.run (pre ++ [(.dgram, .hs .ok :: snds)])).2 = (s.run pre).2 ++ Out.hsOkMark ::
+      (sentPrefix (s.run pre).1.conActive (s.run pre).1.delayq).map (fun m => Out.tx true (m.view false) (some m.sn)) ∧
+    (s.run (pre ++ [(.dgram, .hs .ok :: snds)])).1.delayq =
+      (s.run pre).1.delayq.drop (sentPrefix (s.run pre).1.conActive (s.run pre).1.delayq).length ∧
+    (s.run (pre ++ [(.dgram, .hs .ok :: snds)])).1.state = .established ∧
+    (∀ j, wr j (s.run (pre ++ [(.dgram, .hs .ok :: snds)])).2 ≤ 1) ∧
+    (∀ x ∈ sentPrefix (s.run pre).1.conActive (s.run pre).1.delayq, wr x.sn (s.run (pre ++ [(.dgram, .hs .ok :: snds)])).2 = 1) ∧
+    (∀ j, nk j (s.run (pre ++ [(.dgram, .hs .ok :: snds)])).2 ≤ 1) ∧
+    (∀ x ∈ (s.run pre).1.delayq, nk x.sn (s.run (pre ++ [(.dgram, .hs .ok :: snds)])).2 = 0) := by
+  have hnotx : ∀ o ∈ (s.run pre).2, ∀ tls v sn, o ≠ Out.tx tls v sn := by
+    intro o ho' tls v sn heq
+    subst heq
+    obtain ⟨a, b, hab⟩ := List.append_of_mem ho'
+    have := nothing_queued_written_before_established h pre a b tls v sn hab
+    exact hnm (by rw [hab]; simp [this])
+  obtain ⟨l1, l2, l3, _⟩ := ledger_before_established h hl pre hnm
+  have hest : (s.run pre).1.est = false := by
+    cases he : (s.run pre).1.est with
+    | false => rfl
+    | true => exact absurd ((run_sessOk pre (unauth_sessOk h)).est he) (not_seen_of_no_mark _ hnm)
+  obtain ⟨g1, g2, g3⟩ := establishing_dgram (s.run pre).1 snds hp hty htls hest hst hfr hap ho hlen
+  have hrun : s.run (pre ++ [(.dgram, .hs .ok :: snds)]) =
+      (((s.run pre).1.step .dgram (.hs .ok :: snds)).1, (s.run pre).2 ++ ((s.run pre).1.step .dgram (.hs .ok :: snds)).2) := by
+    rw [run_append]; simp [Sess.run]
+  rw [hrun]
+  simp only [g1, g2, g3]
+  have hw0 : ∀ j, wr j (s.run pre).2 = 0 := by
+    intro j
+    unfold wr
+    rw [List.countP_eq_zero]
+    intro o ho' hwr
+    cases o with
+    | tx a v sn => exact hnotx _ ho' a v sn rfl
+    | _ => simp [Out.writes] at hwr
+  have hwf : ∀ j, wr j ((s.run pre).2 ++ Out.hsOkMark ::
+      (sentPrefix (s.run pre).1.conActive (s.run pre).1.delayq).map (fun m => Out.tx true (m.view false) (some m.sn))) =
+      (sentPrefix (s.run pre).1.conActive (s.run pre).1.delayq).countP (fun m => m.sn == j) := by
+    intro j
+    have := hw0 j
+    unfold wr at this ⊢
+    rw [List.countP_append, this, List.countP_cons, List.countP_map]
+    simp only [Out.writes, Bool.false_eq_true, if_false, Nat.zero_add, Nat.add_zero]
+    congr 1
+  have hsp : ((sentPrefix (s.run pre).1.conActive (s.run pre).1.delayq).map (·.sn)).Pairwise (· < ·) :=
+    List.Pairwise.sublist (List.Sublist.map _ (sentPrefix_isPrefix _ _).sublist) l2
+  have hnf : ∀ j, nk j ((s.run pre).2 ++ Out.hsOkMark ::
+      (sentPrefix (s.run pre).1.conActive (s.run pre).1.delayq).map (fun m => Out.tx true (m.view false) (some m.sn))) =
+      nk j (s.run pre).2 := by
+    intro j
+    rw [nk_append, nk_quiet j (Out.hsOkMark :: _)]
+    · rfl
+    · intro o ho'
+      simp only [List.mem_cons, List.mem_map] at ho'
+      rcases ho' with rfl | ⟨m, _, rfl⟩ <;> rfl
+  refine ⟨hnotx, l2, trivial, trivial, trivial, ?_, ?_, ?_, ?_⟩
+  · intro j; rw [hwf]; exact countP_sn_le_one _ hsp j
+  · intro x hx
+    rw [hwf]
+    have h1 := countP_sn_le_one _ hsp x.sn
+    have h2 := countP_sn_pos _ x hx
+    omega
+  · intro j; rw [hnf]; exact l1 j
+  · intro x hx; rw [hnf]; exact l3 x hx
+
 /-! ### non-vacuity -/
 
 section PskSelectExamples
@@ -1020,6 +1216,34 @@ theorem icmp_notification_is_extra :
       [.nack .icmp (some "01") (some 0), .nack .tls (some "01") (some 0), .bye, .ev .closed] ∧
     nk 0 [.nack .icmp (some "01") (some 0), .nack .tls (some "01") (some 0), .bye, .ev .closed] = 1 ∧
     List.countP (names 0) [.nack .icmp (some "01") (some 0), .nack .tls (some "01") (some 0), .bye, .ev .closed] = 2 := by
+  decide
+
+/-- "the TLS library accepts the writes": `k` answers `snd ok` satisfy the oracle hypothesis of the flush theorems -/
+theorem accepting_replicate (k : Nat) :
+    ∀ n, (List.replicate k (Orc.snd .ok)).drop n = [] ∨ ∃ t, (List.replicate k (Orc.snd .ok)).drop n = Orc.snd .ok :: t := by
+  induction k with
+  | zero => intro n; left; simp
+  | succ k ih =>
+    intro n
+    cases n with
+    | zero => right; exact ⟨List.replicate k (Orc.snd .ok), by simp [List.replicate_succ]⟩
+    | succ n => simpa [List.replicate_succ] using ih n
+
+/-- an instance of every hypothesis of `queued_first_flush_in_order_once_on_success`: NON, CON, CON queued (and a DTLS timer
+expiry in between), then the handshake completes with three accepted writes available … -/
+def okPre : List (Ev × List Orc) :=
+  [(.appSend false 1 7 "01", []), (.tlsTimeout, [.hs .again]), (.appSend true 1 8 "02", []), (.appSend true 1 9 "03", [])]
+
+example : Out.hsOkMark ∉ (hsClient.run okPre).2 ∧ (hsClient.run okPre).1.proto = .dtls ∧ (hsClient.run okPre).1.typ ≠ .hello ∧
+    (hsClient.run okPre).1.tls = true ∧ (hsClient.run okPre).1.state = .handshake ∧ (hsClient.run okPre).1.freed = false ∧
+    (hsClient.run okPre).1.appRef = true ∧ (hsClient.run okPre).1.delayq.length ≤ (List.replicate 3 (Orc.snd .ok)).length := by
+  decide
+
+/-- … and the whole trace: the mark, the NON and the first CON through the TLS layer, in submission order; the second CON
+waits for the ACK (NSTART) -/
+example : (hsClient.run (okPre ++ [(.dgram, .hs .ok :: List.replicate 3 (Orc.snd .ok))])).2 =
+    [.hsOkMark, .tx true ⟨1, 1, 7, "01", ""⟩ (some 0), .tx true ⟨0, 1, 8, "02", ""⟩ (some 1)] ∧
+    ((hsClient.run (okPre ++ [(.dgram, .hs .ok :: List.replicate 3 (Orc.snd .ok))])).1.delayq.map (·.sn)) = [2] := by
   decide
 
 /-- a cleartext CoAP CON GET (0x41 …) at the endpoint from an unknown peer: nothing -/
